@@ -186,6 +186,13 @@ func runRelay(s RelayScript, v *vt.V) {
 				return
 			}
 		}
+		for _, cl := range calls {
+			// every piece of data must be offered at the offset the backend session has reached
+			if cl.Method == "PushBlobChunkedResume" && cl.Offset0 >= 0 && cl.Have >= 0 && cl.Offset0 != cl.Have {
+				v.Failf("", "%s through %s: the backend session held %d bytes when data was offered at offset %d (calls %v)", s.Method, s.Stack, cl.Have, cl.Offset0, calls)
+				return
+			}
+		}
 		var stored []byte
 		var storedDigest string
 		n := 0
@@ -279,6 +286,16 @@ func genRelay(t *rapid.T) RelayScript {
 			n := rapid.IntRange(0, 3).Draw(t, "nchunks")
 			for i := 0; i < n; i++ {
 				s.Chunks = append(s.Chunks, rapid.SampledFrom([]int{0, 1, 2, 100, 8191, 8192, 8193, 30000}).Draw(t, "chunk"))
+			}
+			if rapid.IntRange(0, 2).Draw(t, "manyFlushes") == 0 {
+				// several data-carrying requests on one writer: a small chunk size and many writes larger than it
+				s.Hint = rapid.SampledFrom([]int{1, 100, 8192}).Draw(t, "smallHint")
+				s.Data = gen.Content{Len: rapid.SampledFrom([]int{40000, 65537, 100000}).Draw(t, "bigLen"), Seed: 7, Kind: 0}
+				s.Digest = string(gen.DigestOf("sha256", s.Data.Bytes()))
+				s.Chunks = nil
+				for i := rapid.IntRange(3, 6).Draw(t, "nbig"); i > 0; i-- {
+					s.Chunks = append(s.Chunks, rapid.SampledFrom([]int{8193, 9000, 12000}).Draw(t, "bigChunk"))
+				}
 			}
 		}
 	}
